@@ -20,7 +20,9 @@ PARALLEL = True
 PRECISION = 6  # documented default of Starfile.write(float_precision=6); Props/C02 proves Gen.floatPrecision = 6
 HUGE = 1.7976931348623157e302  # |v|*1e6 overflows binary64 above this
 
-RULE = ("write stream: 1..4 tables (1..200 rows, an empty table only last; 1..30 columns) of int64 / float64 / text columns, "
+RULE = ("write stream (with, in a third of the cases, a `comments` argument: per block None or 0..3 comment lines incl. empty, padded, '#', 'loop_', "
+        "'data_x', '_rlnFake #1'; in half of all write/read cases also Starfile.read(data_id=i) with i in -n-1..n and in 40% "
+        "get_frame_and_comments/get_specifier_id with a present, duplicated or absent block name, on the same file): 1..4 tables (1..200 rows, an empty table only last; 1..30 columns) of int64 / float64 / text columns, "
         "names from data_, data_particles, data_optics, data_general, data_stopgap_*, number_columns on/off; float cells from "
         "integers-as-floats, 1..9 decimals, values that change under round(6), half-way cases at the 7th decimal, tiny, 1e15..1e22, "
         "+-0; text cells printable ASCII without whitespace/#, not starting with _, never empty, at least one cell per text column "
@@ -30,10 +32,10 @@ RULE = ("write stream: 1..4 tables (1..200 rows, an empty table only last; 1..30
         "with >=1 comment line and >=1 token separator longer than one character; malformed case the model rejects. "
         "distinct = distinct case content (sha1 of the JSON)")
 ASSUMPTIONS = [
-    "Python text-mode I/O: open(path,'w') writes the given characters with LF line ends, open(path,'r').read() turns CRLF/CR into LF (the model gets the LF text)",
-    "str(v) of a float64/int64 cell is the Python repr (computed by the harness with the same builtin and given to the Lean writer as the cell text; the produced file is compared byte for byte)",
+    "Python text-mode I/O: open(path,'w') writes the given characters with LF line ends; open(path,'r').read() may or may not turn CRLF into LF -- the model reads the characters as they are on disk (CRLF included) and theorem crlf_normalisation proves both readings equal (also run on every CRLF case); a CR not followed by LF is outside the quantifier",
+    "the shortest round-trip digit string and decimal exponent of a rounded float64 cell are those of numpy's Dragon4 (format_float_scientific(unique=True)); their layout by Python's repr (fixed/exponent form, thresholds 1e16 and 1e-4, '.0', two-digit exponent, inf, nan) and str(int) are modelled in Lean (floatRepr, intStr) and the produced file is compared byte for byte",
     "DataFrame.round(6) = numpy.round(v, 6) per float cell (harness computes numpy.round itself; byte compare of the file on every case)",
-    "float(repr(x)) = x and int(str(n)) = n (probed on every run); pandas.to_numeric turns a column into numbers iff every cell is a decimal literal [+-]?(d+[.d*]|.d+)([eE][+-]?d+)? (model `isNumTok`; inf/infinity/nan-like and other ambiguous cells are generated only beside a cell that is certainly text; probed on every run)",
+    "float(repr(x)) = x and int(str(n)) = n (probed on every run); pandas.to_numeric turns a column into numbers iff every cell is a decimal literal [+-]?(d+[.d*]|.d+)([eE][+-]?d+)? or [+-]?(inf|infinity) in any letter case -- not nan (model `isNumTok`, proved equal to the grammar `NumTok` and to hold for every cell the writer prints for a number; probed on every run on the token pool incl. all spellings; integer tokens beyond 64 bits are not generated)",
     "pandas.to_numeric(token) is within 2 ulp of the correctly rounded float(token) (1 ulp off observed, e.g. '3.3e+100' -> 3.2999999999999997e+100); the statement's `equal after rounding to 6 decimals` is judged as |read - written| <= 0.5e-6 + 2 ulp",
     "str.isspace() on the characters of one line = model `isWs` (blank, tab, CR, VT, FF, U+001C..U+001F, U+0085, U+00A0); generated texts are ASCII",
 ]
@@ -48,6 +50,7 @@ TEXT_SURE = ["A", "B", "x", "mic_001.mrc", "tomo12/sub_3.em", "000012@stack.mrcs
              "very_long_file_name_of_a_tilt_series_TS_001.mrc", "q", "yes", "p'q", "\"quoted\"", "a=b", "[1,2]", "x_", "l00p_", "loop", "Loop_", "loop__", "data_x", "-x", "x-1", "1x", "e5x"]
 TEXT_AMBIG = ["nan", "NaN", "inf", "-inf", "Infinity", "1_0", "0x10", "1d5", "--1", "1e", "e5", ".", "-", "+", "1.2.3", "True", "None", "NA", "N/A", "1,5", "1f", "5j", "1e400",
               "12", "-3", "4.5", "1e5", ".5", "7.", "+2", "0012", "1E-3"]
+INF_SPELLINGS = ["inf", "-inf", "+inf", "Inf", "INF", "iNf", "infinity", "Infinity", "-Infinity", "+INFINITY", "-iNfInItY"]
 WS_PAD = [" ", "  ", "\t", "   ", " \t", "\t\t", "    ", " \t ", "          "]
 
 
@@ -253,6 +256,58 @@ def translate(src):
                 out.append("?:" + t[:60])
         return out
 
+    def _body(fn):
+        sts = [st for st in fn.body if not (isinstance(st, ast.Expr) and isinstance(st.value, ast.Constant) and isinstance(st.value.value, str))]
+        return ";".join(re.sub(r"\s+", "", ast.unparse(st).replace("\n", ";")) for st in sts)
+
+    def comments_branch():
+        """`if comment is not None: for c in comment: file.write(f"\n# {c}"); file.write("\n")`, before the specifier line"""
+        body = file_writes().body
+        idx = [i for i, st in enumerate(body) if isinstance(st, ast.If) and ast.unparse(st.test).replace(" ", "") == "commentisnotNone"]
+        spec = [i for i, st in enumerate(body) if "file.write" in ast.unparse(st) and "specifier" in ast.unparse(st) and isinstance(st, ast.Expr)]
+        if len(idx) != 1 or len(spec) != 1 or idx[0] > spec[0] or any("file.write" in ast.unparse(st) for st in body[:idx[0]] + body[idx[0] + 1:spec[0]]):
+            raise A("Starfile.write: `if comment is not None:` directly before the specifier line")
+        st = body[idx[0]]
+        if st.orelse or len(st.body) != 2 or not isinstance(st.body[0], ast.For) or ast.unparse(st.body[0].iter) != "comment" or ast.unparse(st.body[0].target) != "c" or len(st.body[0].body) != 1:
+            raise A("Starfile.write: for c in comment: file.write(...); file.write(...)")
+        w = st.body[0].body[0]
+        if not (isinstance(w, ast.Expr) and isinstance(w.value, ast.Call) and ast.unparse(w.value.func) == "file.write" and isinstance(w.value.args[0], ast.JoinedStr)):
+            raise A("Starfile.write: file.write(f'\\n# {c}')")
+        pieces = _fstring(w.value.args[0], ["c"], "comment line")
+        e = st.body[1]
+        if not (isinstance(e, ast.Expr) and isinstance(e.value, ast.Call) and ast.unparse(e.value.func) == "file.write" and isinstance(e.value.args[0], ast.Constant)):
+            raise A("Starfile.write: file.write('\\n') after the comment lines")
+        return [pieces, e.value.args[0].value]
+
+    def comment_value():
+        for n in ast.walk(tok_fn()):
+            if isinstance(n, ast.Call) and ast.unparse(n.func) == "Token" and len(n.args) == 3 and ast.unparse(n.args[0]) == "TokenType.COMMENT":
+                return ast.unparse(n.args[1]).replace(" ", "")
+        raise A("Token.tokenize: Token(TokenType.COMMENT, <value>, ...)")
+
+    def read_fn():
+        return src.find(rel, "Starfile.read")
+
+    def comments_order():
+        for n in ast.walk(read_fn()):
+            if isinstance(n, ast.Call) and ast.unparse(n.func) == "comments.append":
+                return ast.unparse(n.args[0]).replace(" ", "")
+        raise A("Starfile.read: comments.append(...)")
+
+    def data_id_branch():
+        fn = read_fn()
+        names = [a.arg for a in fn.args.args]
+        d = dict(zip(names[len(names) - len(fn.args.defaults):], fn.args.defaults))
+        if "data_id" not in d or ast.unparse(d["data_id"]) != "None":
+            raise A("Starfile.read(file_path, data_id=None)")
+        last = fn.body[-1]
+        if not isinstance(last, ast.If):
+            raise A("Starfile.read: final if data_id is not None")
+        return re.sub(r"\s+", "", ast.unparse(last).replace("\n", ";"))
+
+    def ncc_fn():
+        return _body(src.find(rel, "Token.parse_newline_or_comments"))
+
     sep = src.anchor("tokenize:split(sep)", split_sep)
     cch = src.anchor("tokenize:comment-char", comment_char)
     ppf = src.anchor("tokenize:property-prefix", prop_prefix)
@@ -270,6 +325,14 @@ def translate(src):
     lp = src.anchor("write:label-plain", lambda: fpieces("write_without_number", ["name"]))
     sl = src.anchor("write:specifier-line", spec_line)
     sk = src.anchor("write:block-skeleton", skeleton)
+    cb = src.anchor("write:comments-branch", comments_branch)
+    cv = src.anchor("tokenize:comment-value", comment_value)
+    co = src.anchor("read:comments-order", comments_order)
+    di = src.anchor("read:data_id", data_id_branch)
+    ncc = src.anchor("parse_newline_or_comments:body", ncc_fn)
+    gsi = src.anchor("get_specifier_id:body", lambda: _body(src.find(rel, "Starfile.get_specifier_id")))
+    gfc = src.anchor("get_frame_and_comments:body", lambda: _body(src.find(rel, "Starfile.get_frame_and_comments")))
+    cb = cb or [["\n# ", ""], "\n"]; cv = cv or ""; co = co or ""; di = di or ""; ncc = ncc or ""; gsi = gsi or ""; gfc = gfc or ""
     # documented fall-backs (only used to keep the file syntactically valid; anchorsOk is false then)
     sep = sep or "\n"; cch = cch or "#"; ppf = ppf or "_"; lkw = lkw if lkw is not None else "loop_"; order = order or ["PROPERTY", "LOOP", "LITERAL"]
     drop = 1 if drop is None else drop; prec = 6 if prec is None else prec; cf = cf or ["", "<", 10]; cs = "\t" if cs is None else cs
@@ -315,6 +378,15 @@ def loopLine : List Char := {_chars(loop_line)}
 def stopgapExtra : List Char := {_chars(stop_extra)}
 def blockEnd : List Char := {_chars(block_end)}
 def labelStart : Nat := {label_start}
+-- comments argument of Starfile.write; comment values / data_id / specifier lookup of the reader
+def commentLine : List (List Char) := {lst(cb[0])}
+def commentsEnd : List Char := {_chars(cb[1])}
+def commentValue : String := {core.lean_str(cv)}
+def commentsOrder : String := {core.lean_str(co)}
+def dataIdBranch : String := {core.lean_str(di)}
+def newlineOrComments : String := {core.lean_str(ncc)}
+def getSpecifierId : String := {core.lean_str(gsi)}
+def getFrameAndComments : String := {core.lean_str(gfc)}
 end CryoCat.Gen.C02
 """
 
@@ -365,7 +437,7 @@ def indep_parse(text):
         blocks.append(dict(name=name, cols=cols, rows=rows))
 
 
-NUM_RE = re.compile(r"[+-]?(\d+\.?\d*|\.\d+)([eE][+-]?\d+)?\Z")
+NUM_RE = re.compile(r"[+-]?((\d+\.?\d*|\.\d+)([eE][+-]?\d+)?|[iI][nN][fF]([iI][nN][iI][tT][yY])?)\Z")
 
 
 def is_num(tok):
@@ -470,6 +542,9 @@ def gen_write(rng, tier):
                 data.append(_text_column(rng, nrows))
         blocks.append(dict(name=rng.choice(NAMES), cols=_labels(rng, ncols), types=types, data=data))
     case = dict(kind="write", number_columns=rng.random() < 0.6, blocks=blocks)
+    if rng.random() < 0.35:  # the `comments` argument of Starfile.write: per block None or a list of comment lines
+        case["comments"] = [None if rng.random() < 0.3 else [rng.choice(COMMENTS) for _ in range(rng.choice([0, 1, 1, 2, 3]))] for _ in blocks]
+    _selection(rng, case, [b["name"] for b in blocks])
     k = rng.random()
     if k < 0.012:  # class of open finding C02-K1: a text cell that is the reserved word
         b = rng.choice(blocks)
@@ -484,6 +559,19 @@ def gen_write(rng, tier):
             j = rng.choice(fc)
             b["data"][j][rng.randrange(len(b["data"][j]))] = f2b(rng.choice([1e305, -1.7e308, 1.8e302, -2e303]))
     return case
+
+
+COMMENTS = ["made by cryoCAT", "version 30001", "", " ", "  padded  ", "\ttab\t", "# double", "loop_", "data_other", "_rlnFake #1", "1 2 3", "a # b", "x", "unit: A",
+            "very long comment " * 6, "\x0cformfeed"]
+
+
+def _selection(rng, case, names):
+    """exercise Starfile.read(data_id=i) and get_frame_and_comments(path, specifier) on the same file"""
+    nb = len(names)
+    if rng.random() < 0.5:
+        case["data_id"] = rng.randint(-nb - 1, nb)
+    if rng.random() < 0.4:
+        case["specifier"] = rng.choice(names + ["data_absent"]) if rng.random() < 0.85 else rng.choice(NAMES)
 
 
 def _pad(rng, allow_empty=True):
@@ -509,6 +597,8 @@ def _read_token(rng, kind):
         k = rng.random()
         if k < 0.6:
             return repr(round(rng.uniform(-400, 400), rng.randint(1, 6)))
+        if k < 0.64:  # numbers for pandas.to_numeric and for the model (`isInfTok`)
+            return rng.choice(INF_SPELLINGS)
         return rng.choice(["1.", ".5", "-0.0", "1e5", "1E-3", "2.5e+10", "-.25", "3.141593", "0.000000", "180.000000", "1e-05", "+0.5", "-12.e2"])
     if kind == "text":
         return _text_token(rng)
@@ -570,7 +660,15 @@ def gen_read(rng, tier):
     last = blocks[-1]
     if not last["row_lines"] and not last["post"] and not trailing:
         final_nl = True  # a file that ends inside the label list is outside the statement
-    return dict(kind="read", blocks=blocks, trailing=trailing, final_newline=final_nl, eol=rng.choice(["lf", "lf", "crlf"]))
+    case = dict(kind="read", blocks=blocks, trailing=trailing, final_newline=final_nl, eol=rng.choice(["lf", "lf", "crlf"]))
+    _selection(rng, case, [b["x"]["name"] for b in blocks])
+    return case
+
+
+def raw_text(case):
+    """the characters of the file as written to disk (CRLF line ends when the case says so)"""
+    text = render_read(case)
+    return text.replace("\n", "\r\n") if case.get("eol") == "crlf" else text
 
 
 def render_read(case):
@@ -694,7 +792,40 @@ def _read_obs(path):
         fr = [f for f in traceback.extract_tb(e.__traceback__) if "/cryocat/" in f.filename]
         where = f"{os.path.basename(fr[-1].filename)}:{fr[-1].lineno}" if fr else ""
         return dict(error="crash:" + type(e).__name__, message=f"{type(e).__name__}: {str(e)[:200]} @{where}")
-    return dict(specifiers=[str(s) for s in specifiers], frames=[_frame_obs(f) for f in frames])
+    return dict(specifiers=[str(s) for s in specifiers], frames=[_frame_obs(f) for f in frames],
+                comments=[[c if isinstance(c, str) else f"<{type(c).__name__}>" for c in cs] for cs in comments])
+
+
+def _sel_obs(path, case):
+    """Starfile.read(path, data_id=i) and Starfile.get_frame_and_comments(path, specifier) on the same file"""
+    from cryocat.starfileio import Starfile
+    out = {}
+    if "data_id" in case:
+        try:
+            f, sp, cs = Starfile.read(path, data_id=case["data_id"])
+            out["data_id"] = dict(name=str(sp), frame=_frame_obs(f), comments=list(cs))
+        except IndexError:
+            out["data_id"] = dict(error="IndexError")
+        except IOError:
+            out["data_id"] = dict(error="parse")
+        except Exception as e:
+            out["data_id"] = dict(error="crash:" + type(e).__name__)
+    if "specifier" in case:
+        try:
+            f, cs = Starfile.get_frame_and_comments(path, case["specifier"])
+            out["specifier"] = dict(frame=_frame_obs(f), comments=list(cs))
+        except ValueError:
+            out["specifier"] = dict(error="ValueError")
+        except IOError:
+            out["specifier"] = dict(error="parse")
+        except Exception as e:
+            out["specifier"] = dict(error="crash:" + type(e).__name__)
+        try:
+            frames, specifiers, _ = Starfile.read(path)
+            out["specifier_id"] = Starfile.get_specifier_id(specifiers, case["specifier"])
+        except Exception:
+            out["specifier_id"] = "error"
+    return out
 
 
 def run_impl(case):
@@ -714,15 +845,14 @@ def run_impl(case):
                     else:
                         d[c] = pd.Series(list(col), dtype=object) if case.get("object_dtype") else list(col)
                 frames.append(pd.DataFrame(d, columns=b["cols"]))
-            Starfile.write(list(frames), p, specifiers=[b["name"] for b in case["blocks"]], number_columns=case["number_columns"])
+            Starfile.write(list(frames), p, specifiers=[b["name"] for b in case["blocks"]], comments=copy.deepcopy(case.get("comments")),
+                           number_columns=case["number_columns"])
             raw = open(p, "rb").read()
             text = raw.decode("utf-8")
-            return dict(text=text, read=_read_obs(p))
-        text = render_read(case)
-        data = text.replace("\n", "\r\n") if case.get("eol") == "crlf" else text
+            return dict(text=text, read=_read_obs(p), sel=_sel_obs(p, case))
         with open(p, "wb") as f:
-            f.write(data.encode("utf-8"))
-        return dict(read=_read_obs(p))
+            f.write(raw_text(case).encode("utf-8"))
+        return dict(read=_read_obs(p), sel=_sel_obs(p, case))
 
 
 # ------------------------------------------------------------------ model requests
@@ -736,22 +866,61 @@ def _cell_text(t, v):
     return v
 
 
+def _typed_cell(t, v):
+    """the cell as the Lean writer gets it: text as a string, an integer as an integer, a float as its sign, shortest digit
+    string and decimal-point position after round(6) -- the digits come from numpy's Dragon4 (format_float_scientific,
+    unique=True), not from Python's repr; the Lean `floatRepr` lays them out and the file is compared byte for byte"""
+    import numpy as np
+    if t == "int":
+        return int(v)
+    if t == "text":
+        return v
+    with np.errstate(all="ignore"):
+        r = np.float64(np.round(np.float64(b2f(v)), PRECISION))
+    if np.isnan(r):
+        return ["nan"]
+    if np.isinf(r):
+        return ["inf", bool(r < 0)]
+    mant, ex = np.format_float_scientific(r, unique=True, trim="-").split("e")
+    neg = mant.startswith("-")
+    return [neg, mant.lstrip("-").replace(".", ""), int(ex) + 1]
+
+
 def _model_blocks(case):
     out = []
     for b in case["blocks"]:
         n = len(b["data"][0]) if b["data"] else 0
-        cols = [[_cell_text(t, v) for v in col] for t, col in zip(b["types"], b["data"])]
+        cols = [[_typed_cell(t, v) for v in col] for t, col in zip(b["types"], b["data"])]
         out.append(dict(name=b["name"], cols=b["cols"], rows=[[cols[j][i] for j in range(len(cols))] for i in range(n)]))
     return out
 
 
+def _sel_requests(case, text):
+    reqs = []
+    if "data_id" in case:
+        reqs.append(dict(op="read", text=text, data_id=case["data_id"]))
+    if "specifier" in case:
+        reqs.append(dict(op="read", text=text, specifier=case["specifier"]))
+    return reqs
+
+
 def requests(case, obs):
     if case["kind"] == "write":
-        reqs = [dict(op="print", number_columns=case["number_columns"], blocks=_model_blocks(case))]
+        pr = dict(op="print", number_columns=case["number_columns"], blocks=_model_blocks(case))
+        if case.get("comments") is not None:
+            pr["comments"] = case["comments"]
+        reqs = [pr]
         if isinstance(obs, dict) and "text" in obs:
             reqs.append(dict(op="read", text=obs["text"]))
+            reqs += _sel_requests(case, obs["text"])
         return reqs
-    return [dict(op="read", text=render_read(case))]
+    # the driver gets the characters of the file as they are on disk (CRLF included); the LF form goes along for the
+    # CRLF-normalisation theorem's instance (model(raw) must equal model(lf))
+    raw = raw_text(case)
+    reqs = [dict(op="read", text=raw)] + _sel_requests(case, raw)
+    if case.get("eol") == "crlf":
+        reqs.append(dict(op="read", text=render_read(case)))
+    return reqs
 
 
 # ------------------------------------------------------------------ judgement
@@ -787,9 +956,7 @@ def _cmp_frames_with_tokens(read, blocks, clause_prefix, kind):
             toks = [r[j] for r in b["rows"]]
             if not toks:
                 continue
-            numeric = all(is_num(t) for t in toks)
-            if not numeric and all(is_num(t) or _inf_like(t) for t in toks):
-                continue  # inf / infinity / overflowing literals are numbers for pandas but outside the model's decimal grammar: undecided, not compared
+            numeric = all(is_num(t) for t in toks)  # decimal literals and [+-]inf / infinity in any case (model `isNumTok`)
             if "kinds" in b and b["kinds"][j] != numeric:
                 out.append(dict(kind="corr", clause="model-typing", detail=f"block {bi} column {c}: model says numeric={b['kinds'][j]}, harness grammar says {numeric}"))
             k = fr["kinds"][j]
@@ -798,7 +965,7 @@ def _cmp_frames_with_tokens(read, blocks, clause_prefix, kind):
                     out.append(dict(kind=kind, clause=clause_prefix + "-numeric-column-as-text", detail=f"block {bi} column {c}: tokens {toks[:4]} read as {k}")); continue
                 vals = fr["data"][j] if k == "int" else [b2f(x) for x in fr["data"][j]]
                 for i, (t, v) in enumerate(zip(toks, vals)):
-                    if not (k == "int" and int(t) == v) and not _same_number(float(t), float(v)):
+                    if not (k == "int" and not _inf_like(t) and int(t) == v) and not _same_number(float(t), float(v)):
                         out.append(dict(kind=kind, clause=clause_prefix + "-numeric-value", detail=f"block {bi} column {c} row {i}: token {t!r} read as {v!r}")); break
             else:
                 if k != "text":
@@ -879,6 +1046,61 @@ def _judge_write(case, obs, resps):
         out.append(dict(kind="corr", clause="file-vs-printStar", detail=f"first difference at offset {i}: file {b[max(0, i - 30):i + 30]!r}, model {a[max(0, i - 30):i + 30]!r}"))
     if len(resps) > 1:
         out += _judge_model_read(rd, resps[1])
+        out += _judge_sel(case, obs, resps[2:])
+    # the `comments` argument: every comment comes back stripped, in order, with its block (theorem written_comments_read_back);
+    # that it does not disturb the tables is part of (S2) above
+    if "error" not in rd and rd["specifiers"] == [b["name"] for b in blocks] and not any(t == "text" and "loop_" in col for b in blocks for t, col in zip(b["types"], b["data"])):
+        want = [[c.strip() for c in (cs or [])] for cs in (case.get("comments") or [None] * len(blocks))]
+        if rd.get("comments") != want:
+            out.append(dict(kind="corr", clause="readback-comments", detail=f"written {case.get('comments')}, read {rd.get('comments')}"))
+    return out
+
+
+def _frame_matches_block(fr, mb):
+    """a frame observation of the implementation vs. a block of the model (labels, row count, kinds, text cells)"""
+    if fr["cols"] != mb["cols"] or fr["nrows"] != len(mb["rows"]):
+        return False
+    for j in range(len(mb["cols"])):
+        numeric = bool(mb["rows"]) and mb["kinds"][j]
+        if numeric != (fr["kinds"][j] in ("int", "float")):
+            return False
+        if not numeric and fr["data"][j] != [r[j] for r in mb["rows"]]:
+            return False
+    return True
+
+
+def _judge_sel(case, obs, resps):
+    """Starfile.read(data_id=i) / get_frame_and_comments / get_specifier_id vs. the Lean `readSel` / `getFrameAndComments`, and vs. the
+    implementation's own full read (data_id=i is the i-th block; the specifier selects the first block of that name)"""
+    out, sel, rd, k = [], obs.get("sel", {}), obs.get("read", {}), 0
+    merr = lambda r: "parse" if r.get("error", "").startswith(("expected:", "trailing")) else r.get("error")
+    for key in ("data_id", "specifier"):
+        if key not in case:
+            continue
+        if k >= len(resps) or key not in sel:
+            out.append(dict(kind="corr", clause=key + "-no-answer", detail=f"{sel} / {len(resps)} responses")); k += 1; continue
+        im, mo = sel[key], resps[k]; k += 1
+        if "error" in im or "error" in mo:
+            if im.get("error") != merr(mo):
+                out.append(dict(kind="corr", clause=key + "-outcome", detail=f"{key}={case[key]!r}: implementation {im.get('error', 'ok')}, model {mo.get('error', 'ok')}"))
+            continue
+        mb = mo["block"]
+        if not _frame_matches_block(im["frame"], mb) or im["comments"] != mb["comments"] or (key == "data_id" and im["name"] != mb["name"]):
+            out.append(dict(kind="corr", clause=key + "-block", detail=f"{key}={case[key]!r}: implementation {im.get('name')} {im['frame']['cols']} {im['comments']}, model {mb['name']} {mb['cols']} {mb['comments']}"))
+        if "error" not in rd:  # against the full read of the same file
+            n = len(rd["frames"])
+            if key == "data_id":
+                i = case[key] if case[key] >= 0 else n + case[key]
+                good = 0 <= i < n and im["frame"] == rd["frames"][i] and im["name"] == rd["specifiers"][i] and im["comments"] == rd["comments"][i]
+            else:
+                i = rd["specifiers"].index(case[key]) if case[key] in rd["specifiers"] else None
+                good = i is not None and im["frame"] == rd["frames"][i] and im["comments"] == rd["comments"][i] and sel.get("specifier_id") == i
+            if not good:
+                out.append(dict(kind="corr", clause=key + "-vs-full-read", detail=f"{key}={case[key]!r} does not return block {i} of the full read"))
+    if "specifier" in case and "error" not in rd:
+        want = rd["specifiers"].index(case["specifier"]) if case["specifier"] in rd["specifiers"] else None
+        if sel.get("specifier_id") != want:
+            out.append(dict(kind="corr", clause="get_specifier_id", detail=f"{case['specifier']!r} in {rd['specifiers']}: got {sel.get('specifier_id')}, first index {want}"))
     return out
 
 
@@ -892,7 +1114,10 @@ def _judge_model_read(rd, mr):
         return []
     if "error" in rd:
         return [dict(kind="corr", clause="impl-rejects-model-accepts", detail=f"implementation {rd.get('message')}, model read {[b['name'] for b in mr['blocks']]}")]
-    return _cmp_frames_with_tokens(rd, mr["blocks"], "read-vs-model", "corr")
+    out = _cmp_frames_with_tokens(rd, mr["blocks"], "read-vs-model", "corr")
+    if "comments" in rd and rd["comments"] != [b.get("comments") for b in mr["blocks"]]:
+        out.append(dict(kind="corr", clause="comments-vs-model", detail=f"implementation {rd['comments']}, model {[b.get('comments') for b in mr['blocks']]}"))
+    return out
 
 
 def judge(case, obs, resps):
@@ -912,6 +1137,11 @@ def judge(case, obs, resps):
         if "error" in mr or [dict(name=b["name"], cols=b["cols"], rows=b["rows"]) for b in mr["blocks"]] != expect:
             out.append(dict(kind="corr", clause="model-vs-independent-tokenizer", detail=f"model: {str(mr)[:300]}"))
     out += _judge_model_read(rd, mr)
+    nsel = ("data_id" in case) + ("specifier" in case)
+    out += _judge_sel(case, obs, resps[1:1 + nsel])
+    if case.get("eol") == "crlf":  # instance of theorem crlf_normalisation: the model on the CRLF characters = the model on the LF form
+        if len(resps) < 2 + nsel or resps[1 + nsel] != mr:
+            out.append(dict(kind="corr", clause="model-crlf-vs-lf", detail=f"model on CRLF text {str(mr)[:200]}, on LF text {str(resps[-1])[:200]}"))
     return out
 
 
@@ -952,6 +1182,9 @@ def stats(case, obs, resps):
         d["write.coltypes"] = [t for b in case["blocks"] for t in b["types"]]
         d["write.header"] = ["plain(stopgap)" if "stopgap" in b["name"] else ("numbered" if case["number_columns"] else "plain(option)") for b in case["blocks"]]
         d["write.readback"] = obs.get("read", {}).get("error", "ok") if "error" not in obs else "write-raised"
+        d["write.comments-arg"] = "none" if case.get("comments") is None else [("None" if c is None else f"{len(c)} lines") for c in case["comments"]]
+        d["write.float-cell-form"] = [c[0] if c[0] in ("nan", "inf") else ("exponent" if c[2] > 16 or c[2] < -3 else "fixed")
+                                      for b in _model_blocks(case)[:1] for r in b["rows"][:3] for c in r if isinstance(c, list)]
         d["write.long-cell(>10)"] = any(len(str(v)) > 10 for b in case["blocks"] for t, col in zip(b["types"], b["data"]) if t == "text" for v in col)
     else:
         text = render_read(case)
@@ -970,24 +1203,47 @@ def stats(case, obs, resps):
                 d["read.column-kind(model)"] = ["numeric" if x else "text" for b in resps[0]["blocks"] if b["rows"] for x in b["kinds"]]
         else:
             d["malformed.damage"] = case.get("damage", "?")
+    sel = obs.get("sel", {}) if isinstance(obs, dict) else {}
+    if "data_id" in case:
+        n = len(case["blocks"])
+        d["sel.data_id"] = ("in-range" if -n <= case["data_id"] < n else "out-of-range") + ("(neg)" if case["data_id"] < 0 else "") + ":" + sel.get("data_id", {}).get("error", "ok")
+    if "specifier" in case:
+        names = [b.get("name") or b["x"]["name"] for b in case["blocks"]]
+        d["sel.specifier"] = ("absent" if case["specifier"] not in names else "unique" if names.count(case["specifier"]) == 1 else "duplicated") + ":" + sel.get("specifier", {}).get("error", "ok")
+    if isinstance(obs, dict) and "comments" in obs.get("read", {}):
+        d["read.comments-per-block"] = [_bucket(len(c), [0, 1, 3, 10]) for c in obs["read"]["comments"]]
     return d
 
 
 def sample_view(case):
     if case["kind"] == "write":
-        return dict(kind="write", number_columns=case["number_columns"],
+        return dict(kind="write", number_columns=case["number_columns"], comments=case.get("comments"), data_id=case.get("data_id"), specifier=case.get("specifier"),
                     blocks=[dict(name=b["name"], cols=b["cols"][:6], types=b["types"][:6], n_rows=len(b["data"][0]) if b["data"] else 0,
                                  first_row=[(b2f(c[0]) if t == "float" else c[0]) for t, c in list(zip(b["types"], b["data"]))[:6] if c]) for b in case["blocks"]])
-    return dict(kind=case["kind"], damage=case.get("damage"), eol=case.get("eol"), text=render_read(case)[:600])
+    return dict(kind=case["kind"], damage=case.get("damage"), eol=case.get("eol"), data_id=case.get("data_id"), specifier=case.get("specifier"), text=render_read(case)[:600])
 
 
 # ------------------------------------------------------------------ shrinking
+def _without(case, *keys):
+    return {k: v for k, v in case.items() if k not in keys}
+
+
 def shrink(case):
+    for key in ("data_id", "specifier", "comments"):
+        if case.get(key) is not None and key in case:
+            yield _without(case, key)
     if case["kind"] == "write":
         bs = case["blocks"]
         if len(bs) > 1:
             for i in range(len(bs)):
-                yield dict(case, blocks=bs[:i] + bs[i + 1:])
+                c2 = dict(case, blocks=bs[:i] + bs[i + 1:])
+                if case.get("comments") is not None:
+                    c2["comments"] = case["comments"][:i] + case["comments"][i + 1:]
+                yield c2
+        if case.get("comments") is not None:
+            for i, cs in enumerate(case["comments"]):
+                if cs:
+                    yield dict(case, comments=case["comments"][:i] + [cs[1:]] + case["comments"][i + 1:])
         for bi, b in enumerate(bs):
             n = len(b["data"][0]) if b["data"] else 0
             rep = lambda nb: dict(case, blocks=bs[:bi] + [nb] + bs[bi + 1:])
@@ -1069,31 +1325,37 @@ def probes(rng):
     with np.errstate(all="ignore"):
         same = df.round(PRECISION)["v"].tolist() == r
     out.append(dict(name="DataFrame.round(6) == numpy.round(v, 6) cell by cell", ok=bool(same), detail=""))
-    toks = sorted(set(TEXT_AMBIG + TEXT_SURE + [_read_token(rng, k) for k in ("int", "float", "text") for _ in range(200)]))
+    toks = sorted(set(TEXT_AMBIG + TEXT_SURE + INF_SPELLINGS + ["-nan", "+nan", "nAn", "infinit", "in", "infinityy", "i", "-", "+inf+", "--inf"]
+                      + [_read_token(rng, k) for k in ("int", "float", "text") for _ in range(200)]))
     wrong = []
     for t in toks:
-        if t.lower().lstrip("+-") in ("inf", "infinity") or t == "1e400":
-            continue  # numbers for pandas, outside the decimal grammar of the model; never generated in a deciding role
         try:
             conv = pd.to_numeric(pd.Series([t], dtype=object)); numeric = pd.api.types.is_numeric_dtype(conv.dtype)
         except (ValueError, TypeError):
             numeric = False
         if numeric != is_num(t):
             wrong.append(t)
-    out.append(dict(name="pandas.to_numeric accepts exactly the decimal grammar on the token pool", ok=not wrong, detail=str(wrong[:5])))
+    out.append(dict(name="pandas.to_numeric accepts exactly the model grammar (decimal literals, [+-]inf/infinity in any case; not nan) on the token pool", ok=not wrong, detail=str(wrong[:5])))
     ws = [c for c in map(chr, range(0x250)) if c.isspace() and c != "\n"]
     out.append(dict(name="str.isspace() below U+0250 = model isWs set", ok=sorted(ws) == sorted(" \t\r\x0b\x0c\x1c\x1d\x1e\x1f\x85\xa0"), detail=repr(ws)))
     return out
 
 
-LEVEL_TEXT = ("Lean 4 theorems about an executable model of Token.tokenize / parse_specifier / parse_columns / parse_rows / Starfile.read / Starfile.write "
+LEVEL_TEXT = ("Lean 4 theorems about an executable model of Token.tokenize / parse_specifier / parse_columns / parse_rows / Starfile.read (incl. comment lists and "
+              "data_id) / get_specifier_id / get_frame_and_comments / Starfile.write (incl. the comments argument, str(int) and the layout of repr(float)) "
               "over character lists, for texts and tables of any size: tokenizeLine_spec + line_tokens + text_tokens (characters -> tokens of any line/text), "
-              "read_any_layout (every text of the statement's layout grammar is read into exactly its blocks, labels and row tokens), star_roundtrip "
-              "(readStar (printStar tables) = tables for any number of blocks, both header styles), written_text_is_laid_out, column_typing, the witnesses "
-              "loop_cell_breaks_roundtrip (open finding C02-K1) and empty_block_not_last_breaks; the model is tied to the source by 18 regenerated literals/"
-              "write-order anchors (tokenizer_literals_documented, writer_literals_documented) and by an exact differential run: file text byte for byte vs "
-              "printStar, Starfile.read vs readStar vs an independent line tokenizer, incl. the parser's error kind on damaged texts")
-LEVEL_NOTE = ("trusted: Lean kernel; translator anchors; harness line tokenizer; decimal text <-> number conversion (Python float()/str(), numpy.round, "
-              "pandas.to_numeric) is outside the proofs: cells are texts in the model, the harness evaluates the numeric clause directly and probes the assumptions")
+              "read_any_layout + read_any_layout_comments (every text of the statement's layout grammar is read into exactly its blocks, labels, row tokens and comments), "
+              "star_roundtrip / typed_roundtrip (readStar (printStar tables) = tables for any number of blocks, both header styles), written_text_is_laid_out, "
+              "numeric_grammar (the column-typing recogniser = the declarative number grammar), writer_cells_numeric + written_column_typing (a written column comes back "
+              "numeric iff it was written from numbers), crlf_normalisation (CRLF text = LF text for the reader), comments_never_change_tables, "
+              "written_comments_keep_tables, written_comments_read_back, data_id_selects, written_block_by_data_id, specifier_id_first, get_frame_and_comments_spec, the "
+              "witnesses loop_cell_breaks_roundtrip (open finding C02-K1), nan_cell_reads_as_text and empty_block_not_last_breaks; the model is tied to the source by 25 "
+              "regenerated literals/write-order/source-skeleton anchors (tokenizer_literals_documented, writer_literals_documented, comments_and_selection_documented) "
+              "and by an exact differential run: file text byte for byte vs the Lean writer fed with typed cells (integers, Dragon4 digit strings, texts) and comments, "
+              "Starfile.read on the raw (CRLF) characters vs readStarC vs an independent line tokenizer, comments, data_id / specifier selections, incl. the parser's error "
+              "kind on damaged texts")
+LEVEL_NOTE = ("trusted: Lean kernel; translator anchors; harness line tokenizer; the digit string of a float (numpy.round + shortest round-trip digits) and the value "
+              "pandas.to_numeric assigns to a number token are outside the proofs: the harness evaluates the numeric clause directly and probes the assumptions; "
+              "which tokens are numbers and how numbers are printed is inside the model")
 TECHNIQUE = "Lean 4 proof (list induction over characters, tokens, lines and blocks; generative layout grammar) + regenerated literals + exact differential correspondence"
 DESIGN_REF = "DESIGN.md section 4, C02"
